@@ -20,7 +20,7 @@ import (
 const monDerive = "TestVerifDeriveKeyPair"
 
 func TestVerifDeriveKeyPair(t *testing.T) {
-	lib.Mandatory("derive-compared")
+	lib.Mandatory("derive-compared", "derive:first-candidate-rejected")
 	n := lib.Scale(60, 1500)
 	type job struct {
 		k kemDesc
@@ -45,6 +45,15 @@ func TestVerifDeriveKeyPair(t *testing.T) {
 			seed = make([]byte, scheme.SeedSize())
 		case 1:
 			seed = bytes.Repeat([]byte{0xFF}, scheme.SeedSize())
+		case 2:
+			// P-256: an ikm whose first candidate is >= the group order (top 32
+			// bits all ones, one seed in 2^32; found by a 9*10^9-trial search), so
+			// that the second candidate - expanded with counter octet 01 - is the
+			// key.  The other curves have no reachable rejection.
+			seed = lib.MustHex("636972636c2d6330372d736565642d7365617263682d7001000000008675eb50")
+			if len(seed) != scheme.SeedSize() {
+				seed = r.Bytes(scheme.SeedSize())
+			}
 		default:
 			if i%4 == 0 {
 				seed = r.EdgeBytes(scheme.SeedSize(), 19)
@@ -60,6 +69,9 @@ func TestVerifDeriveKeyPair(t *testing.T) {
 		}
 		sk, pk, err := ref.GetDHKEM(uint16(k.id)).DeriveKeyPair(seed)
 		lib.Count("derive-compared")
+		if ref.GetDHKEM(uint16(k.id)).DeriveCounter(seed) > 0 {
+			lib.Count("derive:first-candidate-rejected")
+		}
 		if err != nil || !lib.Eq(sk, kp.skb) || !lib.Eq(pk, kp.pkb) {
 			lib.Violation("C07:derive-key-pair:"+k.name, monDerive, lib.D("seed", seed, "got_sk", kp.skb, "want_sk", sk, "got_pk", kp.pkb, "want_pk", pk))
 			return
